@@ -20,7 +20,8 @@
 #ifndef TBOX_COROUTINE_SEMAPHORE_HPP_20180527
 #define TBOX_COROUTINE_SEMAPHORE_HPP_20180527
 
-#include <queue>
+#include <deque>
+#include <algorithm>
 #include "scheduler.h"
 
 namespace tbox {
@@ -33,13 +34,17 @@ class Semaphore {
 
     //! 请求资源，注意：只能是协程调用
     bool acquire () {
-        if (count_ == 0) {      //! 如果没有资源，则等待
-            token_.push(sch_.getToken());
-            do {
-                sch_.wait();
-                if (sch_.isCanceled())
-                    return false;
-            } while (count_ == 0);
+        while (count_ == 0) {   //! 如果没有资源，则等待
+            const RoutineToken self = sch_.getToken();
+            token_.push_back(self);     //! (re-)register before every wait
+            sch_.wait();
+            //! never leave our token behind (cancel, or resume() by somebody else)
+            token_.erase(std::remove(token_.begin(), token_.end(), self), token_.end());
+            if (sch_.isCanceled()) {
+                if (count_ > 0)
+                    wakeOne();          //! pass on the wake-up that was meant for us
+                return false;
+            }
         }
 
         --count_;
@@ -48,21 +53,25 @@ class Semaphore {
 
     //! 释放资源
     void release() {
-        if (count_ == 0 && !token_.empty()) {
-            auto t = token_.front();
-            token_.pop();
-            sch_.resume(t);
-        }
         ++count_;
+        wakeOne();                      //! one unit, one woken waiter
     }
 
     inline bool count() const { return count_; }
 
   private:
+    void wakeOne() {
+        if (!token_.empty()) {
+            auto t = token_.front();
+            token_.pop_front();
+            sch_.resume(t);
+        }
+    }
+
     Scheduler &sch_;
 
     int count_;
-    std::queue<RoutineToken> token_;
+    std::deque<RoutineToken> token_;
 };
 
 }
